@@ -5,6 +5,8 @@
 //   seq    : op lists on a fresh memory pool, single thread: per op the slab-relative offset / large placement
 //   guards : overflow / argument validation of calloc, posix_memalign, aligned_malloc, large allocation
 #include "common.h"
+#include <fcntl.h>
+#include <unistd.h>
 #include <cerrno>
 #include <map>
 #include <random>
@@ -317,7 +319,7 @@ static int do_api() {
     while (read_case(c)) {
         wd.arm(&o);
         struct Blk { unsigned char* p; size_t n; unsigned char pat; size_t al; };
-        std::vector<Blk> slots; long overlap = 0, misal = 0, msz = 0, nonzero = 0, lost = 0, corrupt = 0, badret = 0;
+        std::vector<Blk> slots; long overlap = 0, misal = 0, msz = 0, nonzero = 0, lost = 0, corrupt = 0, badret = 0, wild = 0;
         auto live_check = [&](unsigned char* p, size_t n, size_t skip) {
             for (size_t k = 0; k < slots.size(); ++k) if (k != skip && slots[k].p) { if (p < slots[k].p + (slots[k].n ? slots[k].n : 1) && slots[k].p < p + (n ? n : 1)) overlap++; } };
         auto fill = [&](Blk& b) { memset(b.p, b.pat, b.n); };
@@ -325,6 +327,10 @@ static int do_api() {
         auto admit = [&](void* q, size_t n, size_t al, bool zero) {
             Blk b{(unsigned char*)q, n, (unsigned char)(0x21 + slots.size() % 90), al};
             if (!q) { slots.push_back({nullptr, 0, 0, 0}); return; }
+            if (al > ((size_t)1 << 20)) {      // huge alignment: the block must be backed by accessible memory before anything else looks at it (write() reports EFAULT instead of a crash)
+                static int nullfd = open("/dev/null", O_WRONLY);
+                if (write(nullfd, q, 1) < 0 || (n && write(nullfd, (char*)q + n - 1, 1) < 0)) { wild++; slots.push_back({nullptr, 0, 0, 0}); return; }
+            }
             size_t need = al ? al : (n <= 8 ? 8 : 16);
             if (((uintptr_t)q % need) != 0) misal++;
             if (scalable_msize(q) < n) msz++;
@@ -337,7 +343,7 @@ static int do_api() {
             if (op == 1) admit(scalable_malloc(a), a, 0, false);
             else if (op == 3) admit(scalable_aligned_malloc(a, b), a, b, false);
             else if (op == 5) admit(scalable_calloc(a, b), a * b, 0, true);
-            else if (op == 7) { void* q = nullptr; int rc = scalable_posix_memalign(&q, (size_t)1 << a, b); if (rc) { q = nullptr; if ((((size_t)1 << a) % sizeof(void*)) == 0) badret++; } admit(q, b, (size_t)1 << a, false); }
+            else if (op == 7) { void* q = nullptr; int rc = scalable_posix_memalign(&q, (size_t)1 << a, b); if (rc) { q = nullptr; if ((((size_t)1 << a) % sizeof(void*)) == 0 && a <= 20) badret++; } /* a huge alignment may legitimately be refused */ admit(q, b, (size_t)1 << a, false); }
             else if (op == 2) { if (a < slots.size() && slots[a].p) { if (!intact(slots[a], slots[a].n)) corrupt++; scalable_free(slots[a].p); slots[a].p = nullptr; } }
             else if (op == 8) { if (a < slots.size() && slots[a].p && scalable_msize(slots[a].p) < slots[a].n) msz++; }
             else if (op == 4 || op == 6) {
@@ -346,6 +352,10 @@ static int do_api() {
                     if (!nn) continue;
                     void* q = op == 6 ? scalable_aligned_realloc(old.p, nn, al) : scalable_realloc(old.p, nn);
                     if (!q) continue;                                   // the old block stays valid
+                    if (al > ((size_t)1 << 20)) {
+                        static int nullfd2 = open("/dev/null", O_WRONLY);
+                        if (write(nullfd2, q, 1) < 0 || write(nullfd2, (char*)q + nn - 1, 1) < 0) { wild++; slots[a].p = nullptr; continue; }
+                    }
                     slots[a].p = nullptr;
                     Blk nb{(unsigned char*)q, nn, old.pat, al};
                     size_t keep = old.n < nn ? old.n : nn;
@@ -360,7 +370,7 @@ static int do_api() {
         }
         for (auto& bl : slots) if (bl.p) { if (!intact(bl, bl.n)) corrupt++; scalable_free(bl.p); }
         o.word("OVERLAP"); o.put(overlap); o.word("MISALIGNED"); o.put(misal); o.word("MSIZE"); o.put(msz); o.word("NONZERO"); o.put(nonzero);
-        o.word("LOSTDATA"); o.put(lost); o.word("CORRUPT"); o.put(corrupt); o.word("BADRET"); o.put(badret);
+        o.word("LOSTDATA"); o.put(lost); o.word("CORRUPT"); o.put(corrupt); o.word("BADRET"); o.put(badret); o.word("WILD"); o.put(wild);
         wd.disarm(); o.flush();
     }
     return 0;
